@@ -116,13 +116,30 @@ pub fn c02(out: &mut Out, ex: &mut Exec, seed: u64, thorough: bool, check_spans:
             out.hist.hit(if changes { "nonascii_label_length_changing" } else { "nonascii_label_same_length" });
         }
     }
+    if check_spans {
+        // failing links: the error's spans must be queryable (first(), iter()) without panicking
+        for _ in 0..if thorough { 2000 } else { 250 } {
+            let k = 2 + rng.below(2) as usize; let set = gen_linkset(&mut rng, k, false);
+            if link_expect(&set.files).ok { continue; }
+            let mut pre = String::new(); let mut okasm = true;
+            for (j, f) in set.files.iter().enumerate() { let t = render(&mut rng, f); let l = format!("asm f{j} 1 {}", hx(&t)); let r = run(out, ex, &l); pre.push_str(&l); pre.push('\n'); if !r.starts_with("ok ") { okasm = false; } }
+            if !okasm { continue; }
+            let mut acc = "f0".to_string();
+            for j in 1..k { let dst = format!("t{j}"); let l = format!("link {dst} {acc} f{j}"); let r = run(out, ex, &l); out.evaluations += 1; pre.push_str(&l); pre.push('\n');
+                if r.starts_with("panic") { out.fail(out.lines, format!("a failing link() gave an error whose spans cannot be queried: {r} ({:?})", set.note), pre.clone()); break; }
+                if r.starts_with("aerr") { out.hist.hit(&format!("link_err_{}", r.split(' ').nth(1).unwrap_or("?"))); break; }
+                acc = dst; }
+        }
+    }
     out.rule = "generated programs with 0 (20%), 1 (60%) or 2-3 (20%) injected faults of 14 kinds (missing/extra .end, missing/nested .orig, statements and labels outside blocks, duplicate labels in another case, undefined labels, a label exactly at and exactly one past the reach of 9- and 11-bit offsets in both directions, blocks ending at/after xFE00 and x10000 incl. one-statement jumps, touching and overlapping blocks, external labels in PC-relative operands), assembled with and without debug symbols; oracle: an independent scan computes the set of violated conditions; accepted iff the set is empty, and the error kind must belong to it; spans: non-empty, inside the source, on char boundaries, label errors cover a spelling of an offending label".into();
 }
 
 /// C23: symbol-table queries
 pub fn c23(out: &mut Out, ex: &mut Exec, seed: u64, thorough: bool) {
     let mut rng = Rng::new(seed); let n = if thorough { 30_000 } else { 2_000 }; let mut seen = HashSet::new();
-    let rc = |rng: &mut Rng, s: &str| -> String { s.chars().map(|c| if rng.bool() { c.to_ascii_uppercase() } else { c.to_ascii_lowercase() }).collect() };
+    NON_ASCII_LABELS.with(|c| c.set(true));
+    // random case, Unicode-aware (the generated non-ASCII letters have single-character case mappings of equal UTF-8 length)
+    let rc = |rng: &mut Rng, s: &str| -> String { s.chars().map(|c| if rng.bool() { c.to_uppercase().next().unwrap() } else { c.to_lowercase().next().unwrap() }).collect() };
     for _ in 0..n {
         let mut stmts = gen_single(&mut rng, 16, true);
         // repeated labels on one address, in another case
@@ -172,35 +189,28 @@ pub fn c23(out: &mut Out, ex: &mut Exec, seed: u64, thorough: bool) {
 /// equal to the name that is not an instruction operand. Approximated textually: the first whole-word match outside comments
 /// and string literals whose previous token is not a comma-or-mnemonic operand position.
 pub fn first_occurrence(text: &str, name: &str) -> Option<usize> {
-    // tokenise roughly: words of [A-Za-z0-9_], skipping comments and strings; remember whether a word starts a statement or follows `.external`
-    let b = text.as_bytes(); let mut i = 0; let mut line_tokens: Vec<(usize, String)> = vec![]; let mut best: Option<usize> = None;
-    let flush = |toks: &mut Vec<(usize, String)>, best: &mut Option<usize>| {
-        // labels = leading words before the first keyword/directive; operand of .external
-        let kw = ["ADD", "AND", "NOT", "BR", "BRP", "BRZ", "BRZP", "BRN", "BRNP", "BRNZ", "BRNZP", "JMP", "JSR", "JSRR", "LD", "LDI", "LDR", "LEA", "ST", "STI", "STR", "TRAP", "NOP", "RET", "RTI", "GETC", "OUT", "PUTC", "PUTS", "IN", "PUTSP", "HALT"];
-        let mut k = 0;
-        while k < toks.len() { let t = up(&toks[k].1); if t.starts_with('.') || kw.contains(&t.as_str()) { break; } if t == up(name) && best.is_none() { *best = Some(toks[k].0); } k += 1; }
-        if k < toks.len() && up(&toks[k].1) == ".EXTERNAL" && k + 1 < toks.len() && up(&toks[k + 1].1) == up(name) && best.is_none() { *best = Some(toks[k + 1].0); }
-        toks.clear();
-    };
-    // statements may continue after a label-only line, so only flush at a line end that follows a keyword/directive; simpler: treat the whole text
-    // as one token stream and restart "statement start" after each nucleus line end.
-    let mut nucleus_seen = false;
-    while i < b.len() {
-        let c = b[i] as char;
-        if c == ';' { while i < b.len() && b[i] != b'\n' { i += 1; } continue; }
-        if c == '"' { i += 1; while i < b.len() && b[i] != b'"' && b[i] != b'\n' { if b[i] == b'\\' { i += 1; } i += 1; } i += 1; continue; }
-        if c == '\n' { if nucleus_seen { flush(&mut line_tokens, &mut best); nucleus_seen = false; } i += 1; continue; }
-        if c.is_ascii_alphanumeric() || c == '_' || c == '.' || c == '#' || c == '-' {
-            let st = i; i += 1; while i < b.len() && ((b[i] as char).is_ascii_alphanumeric() || b[i] == b'_') { i += 1; }
-            let w = text[st..i].to_string();
-            let u = up(&w);
-            if u.starts_with('.') || ["ADD", "AND", "NOT", "BR", "BRP", "BRZ", "BRZP", "BRN", "BRNP", "BRNZ", "BRNZP", "JMP", "JSR", "JSRR", "LD", "LDI", "LDR", "LEA", "ST", "STI", "STR", "TRAP", "NOP", "RET", "RTI", "GETC", "OUT", "PUTC", "PUTS", "IN", "PUTSP", "HALT"].contains(&u.as_str()) { nucleus_seen = true; }
-            line_tokens.push((st, w)); continue;
+    const KW: [&str; 32] = ["ADD", "AND", "NOT", "BR", "BRP", "BRZ", "BRZP", "BRN", "BRNP", "BRNZ", "BRNZP", "JMP", "JSR", "JSRR", "LD", "LDI", "LDR", "LEA", "ST", "STI", "STR", "TRAP", "NOP", "RET", "RTI", "GETC", "OUT", "PUTC", "PUTS", "IN", "PUTSP", "HALT"];
+    // words (Unicode alphanumerics, '_', leading '.', '#', '-') outside comments and string literals, statement by statement:
+    // a statement = leading label words, then a mnemonic or directive, then operands up to the end of that line
+    let cs: Vec<(usize, char)> = text.char_indices().collect();
+    let mut i = 0; let mut in_operands = false; let mut after_external = false;
+    while i < cs.len() {
+        let (pos, c) = cs[i];
+        if c == ';' { while i < cs.len() && cs[i].1 != '\n' { i += 1; } continue; }
+        if c == '"' { i += 1; while i < cs.len() && cs[i].1 != '"' && cs[i].1 != '\n' { if cs[i].1 == '\\' { i += 1; } i += 1; } i += 1; continue; }
+        if c == '\n' { in_operands = false; after_external = false; i += 1; continue; }
+        if c.is_alphanumeric() || c == '_' || c == '.' || c == '#' || c == '-' {
+            let st = i; i += 1; while i < cs.len() && (cs[i].1.is_alphanumeric() || cs[i].1 == '_') { i += 1; }
+            let end = if i < cs.len() { cs[i].0 } else { text.len() };
+            let w = up(&text[pos..end]); let _ = st;
+            if in_operands { if after_external && w == up(name) { return Some(pos); } after_external = false; continue; }
+            if w.starts_with('.') || KW.contains(&w.as_str()) { in_operands = true; after_external = w == ".EXTERNAL"; continue; }
+            if w == up(name) { return Some(pos); }
+            continue;
         }
         i += 1;
     }
-    flush(&mut line_tokens, &mut best);
-    best
+    None
 }
 
 /// C24: line ↔ address mapping
